@@ -264,6 +264,13 @@ done:
 				log.Println("error merging new points:", err)
 			}
 		case edge := <-up.chNewEdge:
+			if up.ncRemote == nil {
+				// no upstream connection (not connected yet, sync disabled, or
+				// connect failed). Remote subscriptions for all nodes are
+				// set up once the connection is established.
+				break
+			}
+
 			if !edge.local {
 				// a new remote node was created, if it does not exist here,
 				// create it
